@@ -322,7 +322,12 @@ def main():
     pm = propmap["properties"][pid]
     repo_src = os.path.join(REPO, "src")
     tag = "%s_%s_%d" % (pid, tier, os.getpid())
-    vr = run_verus(repo_src, tag, rlimit=(30 if tier == "thorough" else None))
+    if pm.get("verus_fns"):
+        vr = run_verus(repo_src, tag, rlimit=(120 if tier == "thorough" else None))
+    else:
+        vr = VerusResult()
+        vr.status = "skipped"
+        vr.cmd = "(no function of this property is within Verus's reach; bounded Kani stand-in only)" 
 
     violations = []     # dicts: obligation, msg, detail, fn
     assumed_fns = []
@@ -338,6 +343,8 @@ def main():
     rewrites = {}
     if vr.status == "undecided":
         undecided.append(vr.undecided_reason)
+    elif vr.status == "skipped":
+        pass
     else:
         meta = vr.meta
         rewrites = meta["rewrites"]
